@@ -217,7 +217,12 @@ class Dataset:
             assert is_sufficient(self.system, keys)
             filled = list(nz)
         else:
-            if s["keys_mode"] == "ortho9+":
+            if s["keys_mode"] == "ortho9+sparse":
+                # the nine orthotropic constants plus one or two isolated couplings
+                others = [k for k in nz if k not in ORTHO9]
+                krng.shuffle(others)
+                keys = ORTHO9 + others[: int(krng.integers(1, 3))]
+            elif s["keys_mode"] == "ortho9+":
                 others = [k for k in nz if k not in ORTHO9]
                 krng.shuffle(others)
                 # any subset of the other non-zero components, every size equally likely (single couplings such as
